@@ -214,6 +214,8 @@ func indexIngest(repo Repo, index *types.Index, conf config.Config, locked bool)
 				newDesc.Annotations = map[string]string{
 					types.AnnotReferrerSubject: refSubj.String(),
 				}
+				// remove the fallback tag, the remaining untagged entry is then updated with the referrer annotation
+				index.RmDesc(desc)
 				index.AddDesc(newDesc)
 				mod = true
 			}
